@@ -51,10 +51,15 @@ TEnd ==
     /\ \A n \in DOMAIN sv : sv[n].st = "dead" /\ sv[n].events = 1
     /\ UNCHANGED sv /\ Adv
 
-\* a process dies; by itself only once its delay has elapsed
+\* a process dies; by itself only once its delay has elapsed.  A death is a silent step; it is taken lazily, right
+\* before the recorded event that needs it (the termination event of that process, the return of a Kill of it,
+\* the end of the run): the causes that are possible only become more with time, except "killed", which the
+\* return of the Kill forces - so nothing is lost, and a burst of many processes stays linear to validate
+NeedsDead(n) == (Is("Event") /\ T.name = n) \/ (Is("KillRet") /\ T.name = n) \/ Is("End")
 Die ==
     /\ l <= Len(TraceLog)
     /\ \E n \in DOMAIN sv, c \in {"natural", "term", "kill"} :
+         /\ NeedsDead(n)
          /\ DieEn(sv, n, c, fake)
          /\ (c = "natural" => NextT >= sv[n].t0 + sv[n].delay - 5)
          /\ sv' = DieDo(sv, n, c)
